@@ -109,12 +109,12 @@ func c01Units(tier string) []*Unit {
 	for _, name := range sortedProgNames(progs) {
 		pg := progs[name]
 		for _, conc := range []int{0, 1, 2} {
-			bound := 2
-			if tier == "thorough" {
-				bound = 3
+			bound, shards := boundFor(tier, len(pg.Tasks), conc)
+			if bound < 0 {
+				continue
 			}
 			sc := scen(fmt.Sprintf("%s/c%s", name, concName(conc)), pg, vlab.Options{Concurrency: conc}, "root")
-			us = append(us, &Unit{Name: sc.Name, Sc: sc, Bound: bound, Prune: true, Check: c01Check(pg), Weight: len(pg.Tasks)})
+			us = append(us, &Unit{Name: sc.Name, Sc: sc, Bound: bound, Prune: true, Check: c01Check(pg), Weight: len(pg.Tasks)*10 + conc, Shards: shards})
 		}
 	}
 	// --parallel roots sharing a dependency
